@@ -63,6 +63,7 @@ func (c *Chain) PlanOf(b *block.Block, key *ecdsa.PrivateKey) *Plan {
 // scheduler's activity updates for (signer, time).  Returns whether PoS is active.
 func (c *Chain) applyUpdates(st *state.State, parent *chain.BlockSummary, signer thor.Address, t uint64) (bool, error) {
 	num := parent.Header.Number() + 1
+	c.lastUps = nil
 	staker := builtin.Staker.Native(st)
 	ds, err := staker.SyncPOS(c.Fork, num)
 	if err != nil {
@@ -93,6 +94,7 @@ func (c *Chain) applyUpdates(st *state.State, parent *chain.BlockSummary, signer
 			return true, nil // not a member: the validator rejects before any update
 		}
 		ups, _ := s.Updates(t)
+		c.lastUps = ups
 		for _, u := range ups {
 			if err := staker.SetOnline(u.Address, num, u.Active); err != nil {
 				return true, err
@@ -135,6 +137,7 @@ func (c *Chain) applyUpdates(st *state.State, parent *chain.BlockSummary, signer
 		return false, nil
 	}
 	ups, _ := s.Updates(t)
+	c.lastUps = ups
 	for _, u := range ups {
 		if _, err := auth.Update(u.Address, u.Active); err != nil {
 			return false, err
